@@ -5,6 +5,7 @@ import (
 	"math"
 	"math/big"
 	"reflect"
+	"strconv"
 	"strings"
 
 	"go.lstv.dev/util/constraint"
@@ -114,6 +115,14 @@ func c08Text(w *rt.W, text string) {
 	w.Eval(2)
 	fail := func(key, g, wnt string) {
 		w.Fail(key, "text", rt.Args("text", text), g, wnt, "text-mode parser disagrees with the documented grammar / exact arithmetic")
+	}
+	{
+		rec := append(append(make([]byte, 0, len(text)+8), text...), "0kB|"...)
+		gS, eS := size.DefaultParser(rec[:len(text)], 0)
+		w.Eval(1)
+		if (eS == nil) != (err == nil) || gS != got || string(rec[len(text):]) != "0kB|" {
+			fail("subslice-disagrees-or-buffer-written", fmt.Sprint(uint64(gS), " ", eS, " rec=", string(rec)), fmt.Sprint(uint64(got), " ", err))
+		}
 	}
 	if (err == nil) != (errB == nil) || got != gotB {
 		fail("string-bytes-disagree", fmt.Sprint(uint64(got), " ", err), fmt.Sprint(uint64(gotB), " ", errB))
@@ -456,6 +465,33 @@ func runC08(c *rt.Ctx) {
 		collisionHistories(c, texts, 300, 200, func(w *rt.W, t string) { c08Text(w, t) })
 	}
 
+	{ // with the input limit raised or disabled texts may be long: hundreds of digits (leading zeros), separators everywhere
+		old := size.MaxInputLength
+		for _, limit := range []int{0, 2000} {
+			size.MaxInputLength = limit
+			c.Parallel(fmt.Sprintf("long-texts-%d", limit), 0, func(w *rt.W) {
+				for k := 0; k < 20000/w.NShards; k++ {
+					zeros := 100 + w.Rng.Intn(400)
+					var sb strings.Builder
+					for i := 0; i < zeros; i++ {
+						sb.WriteByte('0')
+						if w.Rng.Chance(1, 9) {
+							sb.WriteString([]string{" ", "_", "\u00a0"}[w.Rng.Intn(3)])
+						}
+					}
+					sb.WriteString(fmt.Sprint(w.Rng.U64() >> uint(w.Rng.Intn(64))))
+					if w.Rng.Bool() {
+						sb.WriteString([]string{" ", "", "_"}[w.Rng.Intn(3)] + ref.AllUnits[w.Rng.Intn(len(ref.AllUnits))])
+					}
+					c08Text(w, sb.String())
+					w.ClassN("long-text-with-limit-raised", 1)
+				}
+			})
+		}
+		size.MaxInputLength = old
+		c.Require("long-text-with-limit-raised", 30000)
+	}
+
 	nBytes := c.Pick(200000, 20000000)
 	c.Parallel("bytes", 0, func(w *rt.W) {
 		if w.Shard == 0 {
@@ -510,8 +546,8 @@ func runC08(c *rt.Ctx) {
 		chk("Max[dU8]", constraint.Max[dU8]() == math.MaxUint8, constraint.Max[dU8](), math.MaxUint8)
 		chk("Max[uint16]", constraint.Max[uint16]() == math.MaxUint16, constraint.Max[uint16](), math.MaxUint16)
 		chk("Max[dU16]", constraint.Max[dU16]() == math.MaxUint16, constraint.Max[dU16](), math.MaxUint16)
-		chk("Max[uint32]", constraint.Max[uint32]() == math.MaxUint32, constraint.Max[uint32](), math.MaxUint32)
-		chk("Max[dU32]", constraint.Max[dU32]() == math.MaxUint32, constraint.Max[dU32](), math.MaxUint32)
+		chk("Max[uint32]", constraint.Max[uint32]() == math.MaxUint32, constraint.Max[uint32](), uint32(math.MaxUint32))
+		chk("Max[dU32]", constraint.Max[dU32]() == math.MaxUint32, constraint.Max[dU32](), uint32(math.MaxUint32))
 		chk("Max[uint64]", constraint.Max[uint64]() == math.MaxUint64, constraint.Max[uint64](), uint64(math.MaxUint64))
 		chk("Max[dU64]", constraint.Max[dU64]() == math.MaxUint64, constraint.Max[dU64](), uint64(math.MaxUint64))
 		chk("Max[uint]", constraint.Max[uint]() == math.MaxUint, constraint.Max[uint](), uint(math.MaxUint))
@@ -529,7 +565,7 @@ func runC08(c *rt.Ctx) {
 		chk("Min[dU64]", constraint.Min[dU64]() == 0, constraint.Min[dU64](), 0)
 		chk("Min[float32]", constraint.Min[float32]() == -math.MaxFloat32, constraint.Min[float32](), -math.MaxFloat32)
 		chk("Min[dF64]", constraint.Min[dF64]() == -math.MaxFloat64, constraint.Min[dF64](), -math.MaxFloat64)
-		chk("SizeBits", constraint.SizeBits[int8]() == 8 && constraint.SizeBits[dU16]() == 16 && constraint.SizeBits[float32]() == 32 && constraint.SizeBits[dF64]() == 64 && constraint.SizeBits[uint64]() == 64 && constraint.SizeBits[dInt32]() == 32 && constraint.SizeBits[int]() == 64, "SizeBits", "8/16/32/64")
+		chk("SizeBits", constraint.SizeBits[int8]() == 8 && constraint.SizeBits[dU16]() == 16 && constraint.SizeBits[float32]() == 32 && constraint.SizeBits[dF64]() == 64 && constraint.SizeBits[uint64]() == 64 && constraint.SizeBits[dInt32]() == 32 && constraint.SizeBits[int]() == strconv.IntSize && constraint.SizeBits[dUint]() == strconv.IntSize, "SizeBits", "8/16/32/64")
 		chk("SizeBytes", constraint.SizeBytes[int8]() == 1 && constraint.SizeBytes[dU16]() == 2 && constraint.SizeBytes[dF32]() == 4 && constraint.SizeBytes[int64]() == 8, "SizeBytes", "1/2/4/8")
 		chk("IsSigned", constraint.IsSigned[int]() && constraint.IsSigned[dInt8]() && constraint.IsSigned[float32]() && constraint.IsSigned[dF64]() && !constraint.IsSigned[uint]() && !constraint.IsSigned[dU8]() && !constraint.IsSigned[uint64](), "IsSigned", "signed kinds only")
 		chk("IsFloat", constraint.IsFloat[float32]() && constraint.IsFloat[dF64]() && constraint.IsFloat[float64]() && !constraint.IsFloat[int]() && !constraint.IsFloat[dU64]() && !constraint.IsFloat[dInt64](), "IsFloat", "float kinds only")
